@@ -92,5 +92,9 @@ Definition world1 (with_safe : bool) (fp : spec_float -> str)
      w_get_attr := get_attr;
      w_max_depth := Z.to_nat max_component_recursion_depth |}.
 
+(* defaults of a component definition carry no dirty flagged string *)
+Definition def_ok_b (d : comp_def) : bool :=
+  forallb (fun p => match snd p with Some v => vok ok_html v | None => true end) (cd_params d).
+
 (* the float placeholder of Model/VFormat.v; floats are never generated in printed positions *)
 Definition fp_placeholder (_ : spec_float) : str := [102;54;52]%N.
